@@ -16,6 +16,9 @@ CallFaults
     ``shutil.rmtree`` / ``os.remove``).  Armed with ``(label, j)`` the j-th call of that primitive
     raises ``OSError(EIO)`` *instead of* doing its work; unarmed they only count (dry run -> J).
 
+Both can raise a BaseException that is not an Exception instead (InjectedAbort, KeyboardInterrupt,
+SystemExit): an interrupted save must not leave a loadable partial object either.
+
 Neither changes behaviour while disarmed.
 """
 from __future__ import annotations
@@ -29,6 +32,13 @@ import types
 
 class InjectedFault(Exception):
     """raised by a failpoint inside the code under test."""
+
+
+class InjectedAbort(BaseException):
+    """a fault that is *not* an Exception (like KeyboardInterrupt / SystemExit): `except Exception` does not see it."""
+
+
+EXC_CLASSES = {"exception": InjectedFault, "abort": InjectedAbort, "keyboard": KeyboardInterrupt, "exit": SystemExit}
 
 
 def _code_objects_under(prefix):
@@ -67,6 +77,7 @@ class LineFailpoints:
         self.k = None
         self.count = 0
         self.fired = None  # (file, qualname, line, k)
+        self.exc_cls = InjectedFault
         self.codes = []
         self.installed = False
 
@@ -100,8 +111,9 @@ class LineFailpoints:
         return sorted(set("%s:%s" % (os.path.basename(c.co_filename), c.co_qualname) for c in self.codes))
 
     # -- arming ---------------------------------------------------------------------------------
-    def arm(self, k=None):
-        """k=None: count only.  k>=1: raise InjectedFault out of the k-th line event."""
+    def arm(self, k=None, exc="exception"):
+        """k=None: count only.  k>=1: raise EXC_CLASSES[exc] (default InjectedFault) out of the k-th line event."""
+        self.exc_cls = EXC_CLASSES[exc]
         self.k = k
         self.count = 0
         self.fired = None
@@ -118,7 +130,7 @@ class LineFailpoints:
         if self.k is not None and self.count == self.k:
             self.active = False
             self.fired = (os.path.basename(code.co_filename), code.co_qualname, int(line), self.k)
-            raise InjectedFault("injected at line event %d (%s:%s line %d)" % (self.k, self.fired[0], self.fired[1], line))
+            raise self.exc_cls("injected at line event %d (%s:%s line %d)" % (self.k, self.fired[0], self.fired[1], line))
         return None
 
 
@@ -143,6 +155,7 @@ class CallFaults:
         self.j = None
         self.counts = {}
         self.fired = None
+        self.exc_cls = None
         self._restore = []
         self.missing = []
 
@@ -205,14 +218,18 @@ class CallFaults:
                 if cf.label == label and n == cf.j:
                     cf.active = False
                     cf.fired = (label, n)
-                    raise OSError(errno.EIO, "injected I/O fault at call %d of %s" % (n, label))
+                    if cf.exc_cls is None:
+                        raise OSError(errno.EIO, "injected I/O fault at call %d of %s" % (n, label))
+                    raise cf.exc_cls("injected fault at call %d of %s" % (n, label))
             return orig(*a, **k)
 
         wrapper.__name__ = getattr(orig, "__name__", label)
         wrapper.__vf_orig__ = orig
         return wrapper
 
-    def arm(self, label=None, j=None):
+    def arm(self, label=None, j=None, exc=None):
+        """exc=None: OSError(EIO); otherwise a key of EXC_CLASSES (e.g. 'keyboard' -> KeyboardInterrupt)."""
+        self.exc_cls = None if exc in (None, "oserror") else EXC_CLASSES[exc]
         self.label, self.j = label, j
         self.counts = {}
         self.fired = None
